@@ -35,7 +35,7 @@ fn generate(seed: u64, n: usize, csv: &str, out: &mut impl Write) {
     let mut rng = SplitMix64(seed);
     let targets: Vec<String> = all_keys(csv).into_iter().filter(|k| matches!(probe(k), Ok(true))).collect();
     for k in &targets {
-        for _ in 0..2 {
+        for _ in 0..3 {
             writeln!(out, "L|{}|{}", k, rng.next() >> 16).unwrap();
         }
     }
